@@ -58,8 +58,8 @@ SEEDS = [
     'fragment a{C labeled c1 {!connected to =2 heteroatom}}',
 ]
 BOUNDS = {
-    'quick': 'text = P.s.Q with s any string of <= 1 character (all of Unicode) at 48 cut points of the 12 seed texts and '
-             '<= 2 characters at 14 cut points (seeded choice + 4 fixed); 6 truncations + <= 1 character; s = whole text, '
+    'quick': 'text = P.s.Q with s any string of <= 1 character (all of Unicode) at 28 cut points of the 12 seed texts and '
+             '<= 2 characters at 8 cut points (seeded choice + 4 fixed); 6 truncations + <= 1 character; s = whole text, '
              '|s| <= 3',
     'thorough': 's <= 1 character at EVERY cut point of every seed; <= 2 characters at 244 cut points; <= 3 characters at '
                 '32 cut points; every second truncation; whole text |s| <= 4',
@@ -216,10 +216,10 @@ def obligations(tier, seed):
     obs = []
     allcuts = [(si, c) for si, sd in enumerate(SEEDS) for c in cut_points(sd)]
     fixed = [(0, len(SEEDS[0])), (0, len('fragment a')), (7, 62), (2, 56)]   # end of text, end of identifier, number, digit
-    k1 = sorted(set(rnd.sample(allcuts, 44) + fixed)) if q else allcuts
-    k2 = sorted(set(rnd.sample(allcuts, 12) + fixed[:2])) if q else sorted(set(rnd.sample(allcuts, 240) + fixed))
+    k1 = sorted(set(rnd.sample(allcuts, 24) + fixed)) if q else allcuts
+    k2 = sorted(set(rnd.sample(allcuts, 6) + fixed[:2])) if q else sorted(set(rnd.sample(allcuts, 240) + fixed))
     k3 = [] if q else sorted(set(rnd.sample(allcuts, 32)))
-    for k, cuts, to in ((1, k1, 300 if q else 1200), (2, k2, 600 if q else 2400), (3, k3, 3600)):
+    for k, cuts, to in ((1, k1, 200 if q else 1200), (2, k2, 300 if q else 2400), (3, k3, 3600)):
         for si, c in cuts:
             obs.append(dict(name='hole%d_s%d_c%d' % (k, si, c), func='h_parse_hole',
                             param=dict(pre=SEEDS[si][:c], post=SEEDS[si][c:], k=k), timeout=to, path_timeout=300,
